@@ -420,6 +420,22 @@ Proof.
   rewrite npull_rev, nyield_rev in I2. rewrite nprodc_rev, nyield_rev in I4. auto.
 Qed.
 
+Lemma parked_le_len q : length (parked_q q) <= q_len q.
+Proof. destruct q as [f|o]; simpl; [lia|]. unfold fob_len, parked. rewrite map_length. lia. Qed.
+
+(** nothing from nowhere, at count level, between operations: the child outputs handed to the
+    caller so far are no more than the futures that have finished so far, and those are no more
+    than the items pulled from upstream so far *)
+Corollary adapter_counts_ordered ty p inits ups rest a :
+  ad_ctype ty = true ->
+  st_coll (run_state P init_state (OBuild ty p inits ups :: rest)) = CAd a ->
+  let h := hist_of (OBuild ty p inits ups :: rest) in
+  nyield h <= nprodc h /\ nprodc h <= npull h.
+Proof.
+  intros Hty Hc. cbv zeta. destruct (@adapter_accounting ty p inits ups rest a Hty Hc) as (_ & H1 & H2).
+  pose proof (parked_le_len (ad_q a)). lia.
+Qed.
+
 (** C16: pulled-but-unyielded items (running futures + parked outputs) *)
 Corollary pulls_only_below_the_limit ty p inits ups rest pre c post :
   ad_ctype ty = true ->
